@@ -653,7 +653,7 @@ def sample_layer(
     from .pyramid import Pyramid
 
     p = Pyramid.new_toast(depth, coordsys=coordsys)
-    proc = ToastSampler(pio, sampler, True, format=format)
+    proc = ToastSampler(pio, sampler, True, format=format, coordsys=coordsys)
     p.visit_leaves(proc.visit_callback, parallel=parallel, cli_progress=cli_progress)
 
 
@@ -698,7 +698,7 @@ def sample_layer_filtered(
     from .pyramid import Pyramid
 
     p = Pyramid.new_toast_filtered(depth, tile_filter, coordsys=coordsys)
-    proc = ToastSampler(pio, sampler, False, format=format)
+    proc = ToastSampler(pio, sampler, False, format=format, coordsys=coordsys)
     p.visit_leaves(proc.visit_callback, parallel=parallel, cli_progress=cli_progress)
 
 
@@ -720,6 +720,10 @@ class ToastSampler(object):
     format : optional :class:`str`
         If provided, override the default data storage format of *pio* with the
         named format, one of the values in ``toasty.image.SUPPORTED_FORMATS``.
+    coordsys : optional :class:`ToastCoordinateSystem`
+        The TOAST coordinate system to use. Default is
+        :attr:`ToastCoordinateSystem.ASTRONOMICAL`. This is only needed to
+        sample the level-0 tile, which has no associated :class:`Tile`.
 
     Notes
     -----
@@ -727,15 +731,41 @@ class ToastSampler(object):
     the :meth:`toasty.pyramid.Pyramid.visit_leaves` function. This class
     preserves some state between calls to help speed up processing."""
 
-    def __init__(self, pio, sampler, clobber, format=None):
+    def __init__(
+        self,
+        pio,
+        sampler,
+        clobber,
+        format=None,
+        coordsys=ToastCoordinateSystem.ASTRONOMICAL,
+    ):
         self._pio = pio
         self._sampler = sampler
         self._clobber = clobber
         self._format = format
+        self._coordsys = coordsys
         self._invert_into_tiles = pio.get_default_vertical_parity_sign() == 1
 
+    def _level0_coords(self):
+        # The level-0 tile has no `Tile`: it is the 2x2 mosaic of the level-1
+        # tiles, so its 256x256 pixel centers are those tiles' 128x128 grids.
+        lon = np.empty((256, 256))
+        lat = np.empty((256, 256))
+
+        for t in _create_level1_tiles(self._coordsys):
+            iy = slice(128 * t.pos.y, 128 * (t.pos.y + 1))
+            ix = slice(128 * t.pos.x, 128 * (t.pos.x + 1))
+            lon[iy, ix], lat[iy, ix] = subsample(
+                t.corners[0], t.corners[1], t.corners[2], t.corners[3], 128, t.increasing
+            )
+
+        return lon, lat
+
     def visit_callback(self, pos, tile):
-        lon, lat = toast_tile_get_coords(tile)
+        if tile is None:
+            lon, lat = self._level0_coords()
+        else:
+            lon, lat = toast_tile_get_coords(tile)
         sampled_data = self._sampler(lon, lat)
 
         if self._invert_into_tiles:
